@@ -3,18 +3,18 @@ package c16
 import (
 	"fmt"
 	"testing"
+	"time"
 )
 
 func TestDbg(t *testing.T) {
 	for _, su := range setups {
-		s := newSession()
-		f := s.setup(su)
-		v, _ := s.view()
-		fmt.Printf("%s: fail=%v label=%s view=%+v\n", su, f, s.stateLabel(v), v)
-		for _, th := range s.threads {
-			fmt.Printf("   thread %d over=%v err=%v res=%v\n", th.tid, th.over, th.err, th.res)
+		t0 := time.Now()
+		for i := 0; i < 200; i++ {
+			s := newSession()
+			s.setup(su)
+			s.finish()
+			s.close()
 		}
-		fmt.Printf("   dump=%+v\n", s.dump())
-		s.close()
+		fmt.Printf("%s: %v per case\n", su, time.Since(t0)/200)
 	}
 }
